@@ -228,7 +228,7 @@ CHECKS = {
              "from plain values, partial values and values with ... placeholders) under those tapes and under the real "
              "seeded RNG.",
         note=COMMON_NOTE + "Open known findings: F23 (uniform overflow; outside the tape contract, seen only with the "
-             "real RNG), F24 (unsatisfiable member may be visited), F29 (scaled bound overflows). F04, F05, F06, F07, F30 "
+             "real RNG), F24 (unsatisfiable member may be visited), F29 (scaled bound overflows), F42 (IGNORECASE with a negated class: the generator ignores inline flags). F04, F05, F06, F07, F30 "
              "(padding up to min_len) repaired by fix: commits.",
         technique="Coq proof (returns-predicate over the tape monad, nested induction) + refutation witnesses by vm_compute + tape-scripted vm_compute correspondence + direct oracle",
         design="6 C01"),
